@@ -119,6 +119,11 @@ VARIANTS = [
       '    new_dtype, promoted_fill = xrdtypes.maybe_promote(array.dtype)\n    if xrdtypes.NA == fill_value or isnull(fill_value):\n        fill_value = promoted_fill\n', must_mention="promotes the dtype for every fill"),
     V("reindex kernel recomputes its dtype", ("C11",), "R-REINDEXDTYPE", "core.py", '        reindexed = reindexed.astype(dtype, copy=False)\n', '        reindexed = reindexed.astype(np.result_type(dtype, fill_value), copy=False)\n', must_mention="reindex_numpy"),
     V("twin: reindex_ dtype through a differently named local", ("C11",), "", "core.py", '        new_dtype = array.dtype\n', '        new_dtype = array.dtype  # unchanged\n', expect="silent"),
+    # ---------------- R-CLOSEDSIDE (C07)
+    V("outer-edge mask ignores the closed side", ("C07",), "R-CLOSEDSIDE", "core.py", '            within_bins = flat <= bins.max() if right else flat < bins.max()', '            within_bins = flat <= bins.max()', must_mention="outer"),
+    V("digitize always left-closed", ("C07",), "R-CLOSEDSIDE", "core.py", '                right=right,\n            )\n            idx -= 1', '                right=False,\n            )\n            idx -= 1', must_mention="digitize"),
+    V("outer-edge mask dropped", ("C07",), "R-CLOSEDSIDE", "core.py", '            idx[~within_bins] = -1\n', '', must_mention="outer"),
+    V("twin: closed side read directly from the index in the mask", ("C07",), "", "core.py", '            within_bins = flat <= bins.max() if right else flat < bins.max()', '            within_bins = (flat <= bins.max()) if expect.closed == "right" else (flat < bins.max())', expect="silent"),
     # ---------------- R-LABELVALUE (C05, C07)
     V("labels cast to the requested dtype before lookup", ("C05", "C07"), "R-LABELVALUE", "core.py", '            idx = np.searchsorted(expect, flat, sorter=sorter)', '            idx = np.searchsorted(expect, flat.astype(expect.dtype), sorter=sorter)', must_mention="searchsorted"),
     V("NaN labels substituted before factorizing", ("C05", "C07"), "R-LABELVALUE", "core.py", '            idx, groups = pd.factorize(flat, sort=sort)', '            flat = np.nan_to_num(flat)\n            idx, groups = pd.factorize(flat, sort=sort)', must_mention="factorize"),
